@@ -729,5 +729,67 @@ def rule_reusable(ctx):
                         lambda i: True, 1)
 
 
-RULES = [rule_keycomp, rule_keyinj, rule_keyspace, rule_unhash, rule_identity, rule_memo, rule_stateless,
+def rule_invalidate(ctx):
+    """(seed C13_9) The caches are stacked: the tables filled by lookup-or-build sites hold objects that
+    were built *through* memoised resolvers (preset name -> optimizer, ...), and the table keys carry the
+    same names.  Whoever drops the inner memo (`f.cache_clear()`) while the outer table keeps its entries
+    makes the uncached call (fresh resolution) and the cached call (entry built from the old resolution)
+    disagree for the same arguments.  Clause: a function that clears a memo lying below a table clears
+    that table too, on every path."""
+    r = RuleResult("C13-INVALIDATE", "stacked caches are invalidated together", 1)
+    memos = {f.key: f for f in memo_funcs(ctx, True)}
+    below = {}
+    for f, cname, trynode, keyexpr, build in cache_sites(ctx):
+        if not _is_data_cache(ctx, f, cname):
+            continue
+        canon = _canonical_table(f.module, cname)
+        res = ctx.r.resolve_call(f, build)
+        reach = ctx.r.reachable_funcs(list(res.callees))
+        below.setdefault((f.module.path, canon), set()).update(g.key for g in reach if g.key in memos)
+    C.require(below, "no lookup-or-build table found")
+    sites = []
+    for f in ctx.p.all_funcs(None):
+        for n in walk_local(f.node):
+            if isinstance(n, ast.Call) and isinstance(n.func, ast.Attribute) and n.func.attr == "cache_clear":
+                tgt = ctx.p.resolve_expr_static(f.module, n.func.value, f)
+                tkey = getattr(tgt, "key", None)
+                sites.append((f, n, tkey))
+    flagged = set()
+    for f, n, tkey in sites:
+        fl = ctx.flow(f)
+        cn = fl.cfg.containing(n, f.module.parents)
+        for (path, table), ms in sorted(below.items()):
+            if tkey is None or tkey not in ms:
+                continue
+            clears = []
+            for x in walk_local(f.node):
+                if isinstance(x, ast.Call) and isinstance(x.func, ast.Attribute) and x.func.attr == "clear" and \
+                        isinstance(x.func.value, ast.Name) and \
+                        _canonical_table(ctx.p.module(path), x.func.value.id) == table:
+                    clears.append(fl.cfg.containing(x, f.module.parents).id)
+            key = ctx.key(f, "C13-INVALIDATE", f"{table}<-{memos[tkey].name}")
+            if clears and (fl.cfg.all_paths_pass(cn.id, clears) or any(fl.cfg.dominates(c, cn.id) for c in clears)):
+                r.ok(key, C.loc(f, n), f"`{table}` is cleared together with the memo of {memos[tkey].name}")
+            else:
+                flagged.add((path, table))
+                r.violation(key, C.loc(f, n), f"`{C.unparse(n)}` drops the memo of {memos[tkey].name}() but the entries of "
+                            f"`{table}`, which were built through it and are keyed by the same names, are kept: after this "
+                            f"call the uncached query resolves afresh while the cached query returns the object built from "
+                            f"the old resolution — same arguments, different result depending on `cache`")
+    for (path, table), ms in sorted(below.items()):
+        if (path, table) in flagged:
+            continue
+        r.ok(f"{path}::{table}::C13-INVALIDATE", path, f"memo layers below: {sorted(memos[k].name for k in ms)}; "
+             f"no site clears one of them without the table ({len(sites)} cache_clear site(s) in the package)")
+    if not getattr(ctx, "_is_positive_example", False) and not r.violations:
+        note = C.positive_example(
+            ctx, rule_invalidate,
+            [(C.INTERFACE, None, ctx.p.sources[C.INTERFACE] +
+              "\n\ndef _c13_invalidate_positive_example():\n    preset_to_optimizer.cache_clear()\n")],
+            "C13-INVALIDATE")
+        r.note(note)
+    return r
+
+
+RULES = [rule_invalidate, rule_keycomp, rule_keyinj, rule_keyspace, rule_unhash, rule_identity, rule_memo, rule_stateless,
          rule_whitelist, rule_dispatch, rule_hidden, rule_reusable]
